@@ -459,6 +459,22 @@ def make_shims(world):
         moveaxis=A.moveaxis,
         trace=A.trace,
         diagonal=A.diagonal,
+        kron=A.kron,
+        linspace=A.linspace,
+        indices=A.indices,
+        meshgrid=A.meshgrid,
+        cumprod=A.cumprod,
+        diff=A.diff,
+        tril=A.tril,
+        triu=A.triu,
+        rollaxis=A.rollaxis,
+        array_split=A.array_split,
+        delete=A.delete,
+        count_nonzero=A.count_nonzero,
+        sort=A.sort,
+        take_along_axis=A.take_along_axis,
+        vdot=lambda a, b: A.reduce_("sum", A.reshape(A.as_arr(a), (-1,)) * A.reshape(A.as_arr(b), (-1,))),
+        logical_xor=ew2("ne"),
         rot90=A.rot90,
         vstack=A.vstack,
         hstack=A.hstack,
